@@ -169,8 +169,15 @@ fn translate_select_pipeline(
 
     let ranges = takes.into_iter().map(|x| x.range).collect();
     let take = range_of_ranges(ranges)?;
-    let offset = take.start.map(|s| s - 1).unwrap_or(0);
-    let limit = take.end.map(|e| e - offset);
+    let too_large = || Error::new_simple("take range is too large");
+    let offset = match take.start {
+        Some(s) => s.checked_sub(1).ok_or_else(too_large)?,
+        None => 0,
+    };
+    let limit = match take.end {
+        Some(e) => Some(e.checked_sub(offset).ok_or_else(too_large)?),
+        None => None,
+    };
 
     let mut offset = if offset == 0 {
         None
